@@ -11,6 +11,22 @@ E3 = "exhaustive / preemption-bounded prange schedule enumeration on source-deri
 
 # id -> (built, category, technique, text, note, design_ref)
 CHECKS = {
+    "C19": (
+        True,
+        "model_checking",
+        E2 + " over plotting-call sequences + " + E1 + " over the option lattice",
+        "Histories: every sequence (all orders, depth 2 quick / 3 thorough, undeduplicated) of eight kinds of calls (thin map with a "
+        "resolution dict, thick two-layer map with shared extra keywords, rendered map, histogram2d with Quantity limit and a "
+        "Layer, rendered log histogram2d, histogram1d with layer bins/weights, scatter with Array colour and size, plot) sharing "
+        "one set of argument objects; deep snapshots of every shared object (Arrays, Vectors, Datagroup, four Layers with their "
+        "keyword dicts, two resolution dicts, origin, window and limit Quantities, weights) must be identical before and after each "
+        "call, and each call's data must equal the same call on fresh objects. Option lattice: for map and histogram2d each of "
+        "{mode, norm, vmin, vmax, operation, extra keyword} at {neither, layer, call, both with different values} - all 4096 "
+        "combinations (thorough) or everything within 2 deviations (quick) - and 64 combinations for histogram1d {bins, weights, "
+        "extra}; the effective value must be the layer's if set, else the call's.",
+        "Norms are given as strings. Rendering uses the Agg backend; only returned data and argument objects are observed.",
+        "DESIGN.md §3 C19",
+    ),
     "C03": (
         True,
         "model_checking",
